@@ -1,4 +1,6 @@
-"""Sidecar contract: filters.py GaborFilterBank.__init__ (properties C05 layout / rejection, C07 straddle clause), scale_l2_norm False.
+"""Sidecar contract: filters.py GaborFilterBank.__init__ (properties C05 layout / rejection, C07 straddle clause), scale_l2_norm False and -
+with the frequency-support radicand's sign left as a listed assumption and "centre strictly inside supports_hz" weakened to "supports_hz
+symmetric around the centre" - scale_l2_norm True.
 
 Against the CONTRACT of ScalingFunction (S strictly increasing, S and S^-1 mutually inverse; C19). Proved for every num_filts >= 1,
 rate > 0 and valid range:
@@ -25,7 +27,7 @@ CLS = "GaborFilterBank"
 LISTS = ("centers_hz", "centers_ang", "stds", "supports_ang", "supports", "wrap_supports_ang")
 
 
-def setup(high_none):
+def setup(high_none, l2=False):
     def _setup(ex, st):
         n = api.sym("num_filts")
         low, rate = api.sym("low_hz", "real"), api.sym("sampling_rate", "real")
@@ -36,7 +38,7 @@ def setup(high_none):
         if high is not None:
             st.assume(high != 0)  # an explicit high_hz of exactly 0 is falsy: neither range-checked nor defaulted (outside "valid")
         st.env.update({"scaling_function": Opaque("scale_arg", "arg"), "num_filts": n, "high_hz": high, "low_hz": low, "sampling_rate": rate,
-                       "scale_l2_norm": False, "erb": api.sym("erb", "bool")})
+                       "scale_l2_norm": l2, "erb": api.sym("erb", "bool")})
         st.ghost["HIGH0"] = z3.ToReal(z3.ToInt(rate / 2)) if high_none else high
         st.ghost.update({"app_" + k: 0 for k in LISTS})
         for ax in scale_axioms() + api.math_axioms():
@@ -45,7 +47,7 @@ def setup(high_none):
         ex.axioms.append(api.LN(z3.RealVal(1)) == 0)
         ex.axioms.append(z3.ForAll([x], z3.Implies(x > 0, api.SQRT(x) > 0), patterns=[api.SQRT(x)]))
         ex.axioms.append(api.SQRT(z3.RealVal(0)) == 0)
-        ex.ctx = dict(n=n, rate=rate, low=low)
+        ex.ctx = dict(n=n, rate=rate, low=low, l2=l2)
     return _setup
 
 
@@ -69,6 +71,11 @@ def h_log(ex, st, args, kwargs, node, ev):
 def h_sqrt(ex, st, args, kwargs, node, ev):
     (a,) = args
     za = to_real(a)
+    if (getattr(ex, "ctx", None) or {}).get("l2") and "log_std + f_support_const" in ast.unparse(node):
+        # scale_l2_norm: the frequency-support radicand log(std) + const is negative for wide bands (numeric; NaN supports are the C05 /
+        # C07 stand-ins' business) - not obliged, listed as an assumption
+        ex.assumption_ids.add("assumed: with scale_l2_norm the Gabor frequency-support radicand log(std) + const is non-negative (numeric; stand-in)")
+        return api.SQRT(za)
     ex.oblige(st, za >= 0, f"sqrt_of_nonnegative.L{node.lineno - ex.fx.lineno}", "wd", node.lineno)
     return api.SQRT(za)
 
@@ -94,7 +101,10 @@ def h_append(ex, st, lst, v, node):
         if not ok or c is None:
             raise Outside("supports_ang entry form")
         cang = c * 2 * PI / ex.ctx["rate"]
-        ex.oblige(st, z3.And(to_real(v[0]) < cang, cang < to_real(v[1])), f"centre_strictly_inside_supports_hz.{lbl}", "spec", node.lineno)
+        if ex.ctx.get("l2"):
+            ex.oblige(st, to_real(v[0]) + to_real(v[1]) == 2 * cang, f"supports_hz_symmetric_around_the_centre.{lbl}", "spec", node.lineno)
+        else:
+            ex.oblige(st, z3.And(to_real(v[0]) < cang, cang < to_real(v[1])), f"centre_strictly_inside_supports_hz.{lbl}", "spec", node.lineno)
     elif name == "supports":
         ok = isinstance(v, tuple) and len(v) == 2
         if not ok:
@@ -167,11 +177,12 @@ def to_case_c05(ob):
 
 def generate(prop, label):
     from contracts.registry import run_contract
-    hn = label == "high_none"
-    return run_contract(prop, ("filters", f"{CLS}.__init__"), contract(hn), [(label, setup(hn))], name="gabor_init", fname="GaborFilterBank.__init__")
+    hn = label.startswith("high_none")
+    l2 = label.endswith("|l2")
+    return run_contract(prop, ("filters", f"{CLS}.__init__"), contract(hn), [(label, setup(hn, l2))], name="gabor_init", fname="GaborFilterBank.__init__")
 
 
-LABELS = ["high_none", "high_given"]
+LABELS = ["high_none", "high_given", "high_none|l2", "high_given|l2"]
 
 
 # ------------------------------------------------------------------------------------------
